@@ -291,6 +291,8 @@ def err_category(e):
         return 'value'
     if isinstance(e, NotImplementedError):
         return 'notimpl'
+    if isinstance(e, RuntimeError):
+        return 'runtime'
     return 'other:' + type(e).__name__
 
 
